@@ -29,7 +29,7 @@ ASSUMPTIONS = [
     "a candidate whose viability depends on float tolerance, on tie-breaking among equal rates, or on the position of a missing-values-only group is 'ambiguous': the implementation may treat it either way",
     "measures are compared with relative tolerance 1e-9",
 ]
-BUDGET = {"quick": 900, "thorough": 60000}
+BUDGET = {"quick": 1400, "thorough": 60000}
 DEADLINE_S = {"quick": 240, "thorough": 3300}
 STR_NAN = "__NAN__"
 
